@@ -175,6 +175,9 @@ def install(I):
     E["enum.Enum"] = ns["Enum"]
     E["enum.IntFlag"] = ns["IntFlag"]
     E["contextlib.contextmanager"] = Builtin("contextmanager", lambda i, a, k: _mark_ctx(a[0]))
+    E["os.fsdecode"] = Builtin("os.fsdecode", lambda i, a, k: a[0].fields["s"] if isinstance(a[0], Obj) and "s" in a[0].fields else a[0])
+    E["os.fspath"] = E["os.fsdecode"]
+    E["os.PathLike"] = I.ext_models.get("pathlib.Path", obj)
     E["functools.cache"] = Builtin("cache", lambda i, a, k: __import__("pyvc.builtins_", fromlist=["CachedFunc"]).CachedFunc(a[0]))
     E["functools.wraps"] = Builtin("wraps", lambda i, a, k: Builtin("wraps.deco", lambda i2, a2, k2: a2[0]))
     E["abc.abstractmethod"] = Builtin("abstractmethod", lambda i, a, k: a[0])
